@@ -5,8 +5,9 @@ Lexical (brace tracking over comment-free source text; no C++ parser): recognise
 std::lock_guard objects on a mutex member, explicit m_x.lock() / m_x.unlock(), rwp::ReadLock / rwp::WriteLock objects on a
 Resource member; member accesses are identifiers m_<name> (possibly through m_threadPool-> / m_pooledThread-> / thread->)
 and calls of the small accessor functions listed in ACCESSORS. It fails loudly when a function of interest disappears.
-Private helpers that are only ever called with a guard held (Resource::enqueue / select) inherit the guards common to all of
-their call sites."""
+Helper functions (any other member function defined in the same file, e.g. Resource::enqueue / select) are inlined into
+the entry points that call them: their accesses are attributed to the caller, under the guards held at the call site plus
+their own, so that extracting or inlining a private helper does not change the table."""
 import os, re
 from vcommon import REPO, COQ
 
@@ -31,8 +32,6 @@ FUNCTIONS = [
     # (component, file, regex of the function header, name)
     ("Resource", "src/threading/rwp/Resource.cpp", r"void\s+Resource::lock\s*\(", "Resource::lock"),
     ("Resource", "src/threading/rwp/Resource.cpp", r"void\s+Resource::unlock\s*\(", "Resource::unlock"),
-    ("Resource", "src/threading/rwp/Resource.cpp", r"void\s+Resource::enqueue\s*\(", "Resource::enqueue"),
-    ("Resource", "src/threading/rwp/Resource.cpp", r"void\s+Resource::select\s*\(", "Resource::select"),
     ("ThreadPool", "src/threading/ThreadPool.cpp", r"void\s+PooledRunnable::run\s*\(", "PooledRunnable::run"),
     ("ThreadPool", "src/threading/ThreadPool.cpp", r"void\s+ThreadPool::start\s*\(", "ThreadPool::start"),
     ("ThreadPool", "src/threading/ThreadPool.cpp", r"void\s+ThreadPool::clear\s*\(", "ThreadPool::clear"),
@@ -88,7 +87,7 @@ def atomic_fields():
     return out
 
 
-def scan(body, name):
+def scan(body, name, helpers=()):
     """-> list of (field, write, guards) and list of (callee, guards) for helper calls"""
     accesses, calls = [], []
     # reference aliases of member fields (auto &queue = m_threadPool->m_queue;): rewrite their uses to the field
@@ -103,9 +102,9 @@ def scan(body, name):
         r"(?P<guard>std::(?:scoped_lock|unique_lock|lock_guard)(?:\s*<[^>]*>)?\s+\w+\s*[\(\{]\s*(?:\w+->)?(?P<gm>m_\w+)\s*[\)\}])|"
         r"(?P<rw>rwp::(?P<rwk>ReadLock|WriteLock)\s+\w+\s*[\(\{]\s*(?P<rwm>m_\w+)\s*[\)\}])|"
         r"(?P<lock>(?P<lm>m_\w+)\s*\.\s*(?P<lop>lock|unlock)\s*\(\s*\))|"
-        r"(?P<rcall>m_router\s*\.\s*(?:template\s+)?(?P<rop>\w+)|DefaultInvoker\s*<[^>]*>\s*::\s*unsubscribe)|"
+        r"(?P<rcall>m_router\s*\.\s*(?:template\s+)?(?P<rop>\w+)|(?:\w+\s*(?:<[^>]*>)?\s*::\s*)+unsubscribe\s*\()|"
         r"(?P<acc>(?:(?P<recv>\w+)\s*->\s*)?(?P<fn>isRunning|getExpiryTimeout|getLastActiveTime|setLastActiveTime|isFinished|getActiveThreadCount|getThreadCount)\s*\()|"
-        r"(?P<helper>\b(?P<hn>enqueue|select)\s*\()|"
+        + (r"(?P<helper>(?<![\w.>:])(?P<hn>" + "|".join(map(re.escape, sorted(helpers))) + r")\s*\()|" if helpers else r"(?P<helper>(?P<hn>\b\B))|") +
         r"(?P<pre>(?:\+\+|--)\s*)?(?:(?P<through>\w+)\s*->\s*)?(?P<field>m_\w+)(?P<post>\s*(?:\+\+|--|=(?!=)|\.\s*(?P<meth>\w+)\s*\())?")
     for m in token_rx.finditer(body):
         if m.group("lb"):
@@ -145,28 +144,58 @@ def scan(body, name):
     return accesses, calls
 
 
+def discover(src):
+    """all out-of-class member function definitions 'Class::name(...) {' of a comment-free source text -> {(cls, name): body}"""
+    out = {}
+    for m in re.finditer(r"\b(\w+)::(~?\w+)\s*\(([^;{}()]|\([^()]*\))*\)\s*(?:const\s*)?(?:noexcept\s*)?\{", src):
+        i = src.index("{", m.end() - 1)
+        depth, j = 0, i
+        while True:
+            c = src[j]
+            if c == "{": depth += 1
+            elif c == "}":
+                depth -= 1
+                if depth == 0: break
+            j += 1
+        out[(m.group(1), m.group(2))] = src[i:j + 1]
+    return out
+
+
+def collect(body, name, helpers, depth=0):
+    """accesses of a function body with its helpers inlined (guards of the call site added)"""
+    names = {h[1] for h in helpers}
+    acc, calls = scan(body, name, names)
+    rows = list(acc)
+    if depth < 4:
+        for callee, g in calls:
+            for (cls, hn), hbody in helpers.items():
+                if hn == callee:
+                    for fld, w, hg in collect(hbody, cls + "::" + hn, helpers, depth + 1):
+                        rows.append((fld, w, frozenset(hg | g)))
+    return rows
+
+
 def extract():
     atom = atomic_fields()
-    per_fn, helper_sites = {}, {}
-    for comp, f, rx, name in FUNCTIONS:
-        src = strip_comments(open(os.path.join(REPO, f), encoding="utf8").read())
-        acc, calls = scan(function_body(src, rx, name), name)
-        per_fn[(comp, name)] = acc
-        for callee, g in calls:
-            helper_sites.setdefault("Resource::" + callee, []).append(g)
     rows = []
-    for (comp, name), acc in per_fn.items():
-        inherited = frozenset()
-        if name in helper_sites:
-            inherited = frozenset.intersection(*helper_sites[name])
-        elif name in ("Resource::enqueue", "Resource::select"):
-            raise RuntimeError(f"{name} is never called: cannot determine the guards it runs under")
+    cache = {}
+    for comp, f, rx, name in FUNCTIONS:
+        if f not in cache:
+            src = strip_comments(open(os.path.join(REPO, f), encoding="utf8").read())
+            roots = {n for c2, f2, r2, n in FUNCTIONS if f2 == f}
+            found = discover(src) if f.endswith(".cpp") else {}
+            # helpers: member functions defined in this file that are not entry points themselves
+            helpers = {k: v for k, v in found.items()
+                       if not any(n.split("(")[0] == k[0] + "::" + k[1] for n in roots)}
+            cache[f] = (src, helpers)
+        src, helpers = cache[f]
+        acc = collect(function_body(src, rx, name), name, helpers)
         seen = set()
         for fld, w, g in acc:
-            key = (fld, w, g | inherited)
+            key = (fld, w, g)
             if key in seen: continue
             seen.add(key)
-            rows.append((comp, name, fld, w, fld in atom, sorted(g | inherited)))
+            rows.append((comp, name, fld, w, fld in atom, sorted(g)))
     rows.sort()
     return rows
 
@@ -184,8 +213,10 @@ def run():
     path = os.path.join(COQ, "gen", "Accesses.v")
     os.makedirs(os.path.dirname(path), exist_ok=True)
     old = open(path).read() if os.path.exists(path) else None
-    if old != txt:
-        open(path, "w").write(txt)
+    if old != txt:                      # atomic: checks of several properties may run side by side
+        tmp = f"{path}.{os.getpid()}.tmp"
+        open(tmp, "w").write(txt)
+        os.replace(tmp, path)
     return f"Accesses.v: {len(rows)} access rows over {len(FUNCTIONS)} functions"
 
 
